@@ -267,13 +267,14 @@ cleanup_hdr:
 	if (fd_hdr >= 0) {
 		close(fd_hdr);
 	}
-	if (rb && (rb->shared_hdr != MAP_FAILED) && (flags & QB_RB_FLAG_CREATE)) {
+	if (rb && rb->shared_hdr && (rb->shared_hdr != MAP_FAILED) &&
+	    (flags & QB_RB_FLAG_CREATE)) {
 		unlink(rb->shared_hdr->hdr_path);
 		if (rb->notifier.destroy_fn) {
 			(void)rb->notifier.destroy_fn(rb->notifier.instance);
 		}
 	}
-	if (rb && (rb->shared_hdr != MAP_FAILED)) {
+	if (rb && rb->shared_hdr && (rb->shared_hdr != MAP_FAILED)) {
 		munmap(rb->shared_hdr, sizeof(struct qb_ringbuffer_shared_s));
 	}
 	free(rb);
